@@ -342,8 +342,11 @@ def body(ctx):
             da, dr = dag.build(mod.funcs["a_%s_%d" % (nm, kk)], mod), dag.build(mod.funcs["r_%s_%d" % (nm, kk)], mod)
             if da.ret == dr.ret:
                 tot[1] += 1
-            elif nm in ("min", "max"):
-                # both only compare and select: decide by the orderings of the two arguments
+            elif nm in ("min", "max", "mmin", "mmax"):
+                # both only compare and select: decide by the orderings of the two arguments.  The atoms
+                # are the operands of the std reference (the parameters; for the mixed-unit forms the
+                # first one scaled to the common unit), so that a rewrite of the selection which leaves
+                # every result unchanged is not reported (round 10: the mixed forms were compared textually)
                 from vlib import ordering
                 fp = r in ("double", "float")
 
@@ -352,13 +355,35 @@ def body(ctx):
                         n = n.args[0]
                     return n
 
+                def leaves(n, acc):
+                    if n.op == "select":
+                        leaves(n.args[1], acc)
+                        leaves(n.args[2], acc)
+                    elif base(n) not in acc:
+                        acc.append(base(n))
+                    return acc
+
+                def mentions_param(n, i):
+                    return (n.op == "param" and n.attr == i) or any(mentions_param(a, i) for a in n.args)
+                atoms_ = {}
+                for lf in leaves(dr.ret, []):
+                    for i in (0, 1):
+                        if mentions_param(lf, i) and not mentions_param(lf, 1 - i):
+                            atoms_[lf] = i
+                if sorted(atoms_.values()) != [0, 1]:
+                    raise AnalysisBroken("C15 %s/%s: the std reference is not a selection between the two operands: %s" % (nm, r, dr.ret.pretty()[:200]))
+
+                def classify(m):
+                    i = atoms_.get(base(m))
+                    return None if i is None else "AB"[i]
+
                 def choose(n, o):
                     if n.op == "select":
-                        c = ordering.evaluate(n.args[0], o, lambda m: {0: "A", 1: "B"}.get(base(m).attr) if base(m).op == "param" else None)
+                        c = ordering.evaluate(n.args[0], o, classify)
                         return choose(n.args[1] if c else n.args[2], o)
                     b = base(n)
-                    if b.op == "param":
-                        return b.attr
+                    if b in atoms_:
+                        return atoms_[b]
                     raise ordering.NotDecidable(n.pretty()[:80])
                 try:
                     diff = [o for o in (ordering.ORD_FP if fp else ordering.ORD_INT) if choose(da.ret, o) != choose(dr.ret, o)]
@@ -367,7 +392,7 @@ def body(ctx):
                     continue
                 if not diff or (not fp and diff == ["eq"]):
                     tot[1] += 1  # equal arguments of an integral rep are bit-identical: either choice is the same value
-                elif set(diff) <= {"eq", "un"}:
+                elif set(diff) <= {"eq", "un"} and nm in ("min", "max"):
                     findings.append(("minmax-tie-or-nan:%s:%s" % (nm, r),
                                      "same-unit au::%s on %s quantities returns the other argument than std::%s when the arguments compare equal (+0.0 / -0.0) or unordered (NaN)" % (nm, r, nm),
                                      "Au:  %s\nstd: %s" % (da.ret.pretty(), dr.ret.pretty())))
